@@ -90,6 +90,13 @@ def runSerial (failFast : Bool) (files : List (Ground × Bool)) : SerialState :=
 /-- the process result: non-zero iff some case failed or the run was cancelled -/
 def exitOk (s : SerialState) : Bool := s.failed == 0 && !s.cancelled
 
+/-- Ctrl-C that takes effect BETWEEN two files (after the first `k` files are through, before file `k`
+    looks at the flag): those `k` files run undisturbed, then the flag is set, and the remaining files
+    find it set when they start -/
+def runSerialSigBetween (failFast : Bool) (files : List Ground) (k : Nat) : SerialState :=
+  let s := (files.take k).foldl (fun st g => serialStep failFast st (g, false)) {}
+  (files.drop k).foldl (fun st g => serialStep failFast st (g, false)) { s with cancelled := true }
+
 end Slt
 
 namespace Slt
